@@ -66,6 +66,22 @@ theorem complement_complement (c : Char) : complement (complement c) = c := by
   by_cases h8 : c = 'g'; · subst h8; rfl
   by_cases h9 : c = 't'; · subst h9; rfl
   by_cases h10 : c = 'n'; · subst h10; rfl
+  by_cases k0 : c = 'R'; · subst k0; rfl
+  by_cases k1 : c = 'Y'; · subst k1; rfl
+  by_cases k2 : c = 'K'; · subst k2; rfl
+  by_cases k3 : c = 'M'; · subst k3; rfl
+  by_cases k4 : c = 'B'; · subst k4; rfl
+  by_cases k5 : c = 'V'; · subst k5; rfl
+  by_cases k6 : c = 'D'; · subst k6; rfl
+  by_cases k7 : c = 'H'; · subst k7; rfl
+  by_cases k8 : c = 'r'; · subst k8; rfl
+  by_cases k9 : c = 'y'; · subst k9; rfl
+  by_cases k10 : c = 'k'; · subst k10; rfl
+  by_cases k11 : c = 'm'; · subst k11; rfl
+  by_cases k12 : c = 'b'; · subst k12; rfl
+  by_cases k13 : c = 'v'; · subst k13; rfl
+  by_cases k14 : c = 'd'; · subst k14; rfl
+  by_cases k15 : c = 'h'; · subst k15; rfl
   have : complement c = c := by
     unfold complement
     split <;> first | contradiction | rfl
